@@ -20,7 +20,7 @@ ASSUMPTIONS = [
     "known-finding tolerances are applied per (kind, difference code, entry feature) only while listed open in known_findings.json",
 ]
 
-QUICK = ["p2_plain_then_noprose", "p1_optint_d", "p1_optbool_f", "p1_int", "p1_int_d", "p1_untyped_d", "p1_str_s", "p1_bool_b", "p1_optint_none", "p1_literal", "p2_d_then_plain",
+QUICK = ["p0_kwargs", "p2_plain_then_noprose", "p1_optint_d", "p1_optbool_f", "p1_int", "p1_int_d", "p1_untyped_d", "p1_str_s", "p1_bool_b", "p1_optint_none", "p1_literal", "p2_d_then_plain",
          "p2_plain_then_d", "p1_ret", "ret_only", "p1_kwargs", "p0", "p1_code"]
 
 
